@@ -12,6 +12,8 @@ for name in sys.argv[1:]:
         print(name, 'PATCH DOES NOT APPLY', a.stdout[-300:])
         subprocess.run(['git', '-C', '/repo', 'checkout', 'HEAD', '--', '.'])
         continue
+    ev = '/verif/evidence/%s.json' % prop
+    saved = open(ev).read() if os.path.exists(ev) else None
     try:
         p = subprocess.run(['/verif/check', prop, '--tier', 'quick'], cwd='/verif', stdout=subprocess.PIPE, stderr=subprocess.STDOUT, text=True)
         lines = p.stdout.splitlines()
@@ -24,3 +26,5 @@ for name in sys.argv[1:]:
                 print('    ' + l[:230])
     finally:
         subprocess.run(['git', '-C', '/repo', 'checkout', 'HEAD', '--', '.'])
+        if saved is not None:
+            open(ev, 'w').write(saved)
